@@ -48,6 +48,7 @@ type Term struct {
 	sort Sort
 	name string   // for var
 	val  *big.Int // for const (BV: unsigned value; Bool: 0/1; Str: intern index)
+	vars []int    // sorted ids of the variables occurring in the term
 }
 
 func (t *Term) IsConst() bool { return t.op == "const" }
@@ -95,6 +96,13 @@ func (ts *TermStore) mk(op string, s Sort, args []*Term, name string, val *big.I
 	}
 	t := &Term{id: ts.nextID, op: op, args: args, sort: s, name: name, val: val}
 	ts.nextID++
+	if op == "var" {
+		t.vars = []int{t.id}
+	} else {
+		for _, a := range args {
+			t.vars = mergeSorted(t.vars, a.vars)
+		}
+	}
 	ts.table[key] = t
 	if op == "var" {
 		ts.vars = append(ts.vars, t)
@@ -423,4 +431,31 @@ func (ts *TermStore) show(sb *strings.Builder, t *Term, depth int) {
 		}
 		sb.WriteByte(')')
 	}
+}
+
+func mergeSorted(a, b []int) []int {
+	if len(b) == 0 {
+		return a
+	}
+	if len(a) == 0 {
+		return b
+	}
+	out := make([]int, 0, len(a)+len(b))
+	i, j := 0, 0
+	for i < len(a) && j < len(b) {
+		switch {
+		case a[i] < b[j]:
+			out = append(out, a[i])
+			i++
+		case a[i] > b[j]:
+			out = append(out, b[j])
+			j++
+		default:
+			out = append(out, a[i])
+			i++
+			j++
+		}
+	}
+	out = append(out, a[i:]...)
+	return append(out, b[j:]...)
 }
